@@ -42,6 +42,11 @@ def build_cases(tier, seed):
         cs += [("rat", c) for c in fam.prof_list(R3, 2, (F(1, 2), F(3, 2)), c3)]
         famtxt = ("Prof(Rank(3),3,{1,2,3}) + Prof(Rank(4),2,{1,2,3}) + Prof(Perm(4)+Bullet(4),3,{1,2}) + "
                   "Prof(Rank(3),2,{1/2,3/2})")
+    # uncondensed variants: a ranking repeated on another ballot with a different weight
+    for (cands_, bl) in fam.prof_list(R3, 2, (1, 2), c3)[:: (4 if tier == "quick" else 1)]:
+        cs.append(("int", (cands_, bl + ((bl[0][0], 3),))))
+        cs.append(("int", (cands_, ((bl[-1][0], 2),) + bl)))
+    famtxt += " + uncondensed variants of Prof(Rank(3),2,{1,2}) (a ranking repeated on another ballot)"
     _CASES = cs
     meta = {
         "family": famtxt + " x m in 1..n x simultaneous in {T,F} x transfer in {fractional, random (integer weights)} "
